@@ -394,6 +394,12 @@ pub struct Inst {
     pub vote_times: HashMap<[u8; 32], std::time::Instant>,
     pub vote_ttl: Option<Duration>,
     pub vote_min: usize,
+    /// `auto_nat_listen_duration` as the built configuration has it
+    pub auto_nat: Option<Duration>,
+    /// the connectivity timer of a family ran out (its socket was taken out of the record): votes of
+    /// that family are not counted for the next six hours of the real clock, i.e. for the rest of the case
+    pub revoked4: bool,
+    pub revoked6: bool,
 }
 
 pub fn parse_mode(s: &str) -> Option<IpMode> {
@@ -453,7 +459,13 @@ impl Inst {
         if seed % 3 == 0 {
             cb.ban_duration(None);
         }
+        // local identities k…997 wait 5 s (of the paused tokio clock) for incoming sessions after a
+        // socket change before they take the socket out of the record again
+        if seed % 1000 == 997 {
+            cb.auto_nat_listen_duration(Some(Duration::from_millis(5000)));
+        }
         let config = cb.build();
+        let auto_nat = config.auto_nat_listen_duration;
         let key = key_of(seed);
         let local_id = enr.node_id().raw();
         let mut d = Discv5::new(enr, key, config).ok()?;
@@ -485,6 +497,9 @@ impl Inst {
             vote_times: HashMap::new(),
             vote_ttl: if seed % 1000 == 998 { Some(Duration::from_millis(400)) } else { None },
             vote_min: vote_min.max(2),
+            auto_nat,
+            revoked4: false,
+            revoked6: false,
         })
     }
 
@@ -730,6 +745,8 @@ pub struct ServiceRunner {
     pub talks: Vec<Option<TalkRequest>>,
     pub talk_meta: Vec<(Vec<u8>, NodeAddress)>,
     pub hold_talks: bool,
+    /// reading of the (paused) tokio clock when the runtime of the case was created
+    pub t0: Option<tokio::time::Instant>,
 }
 
 impl Default for ServiceRunner {
@@ -744,6 +761,7 @@ impl Default for ServiceRunner {
             talks: Vec::new(),
             talk_meta: Vec::new(),
             hold_talks: false,
+            t0: None,
         }
     }
 }
@@ -764,6 +782,14 @@ pub struct StepOut {
 }
 
 impl ServiceRunner {
+    /// Milliseconds of the paused tokio clock since the first reading in this case.
+    pub fn tok_ms(&mut self) -> u128 {
+        let Some(rt) = self.rt.as_ref() else { return 0 };
+        let now = rt.block_on(async { tokio::time::Instant::now() });
+        let t0 = *self.t0.get_or_insert(now);
+        now.duration_since(t0).as_millis()
+    }
+
     pub fn settle(&self) {
         if let Some(rt) = self.rt.as_ref() {
             rt.block_on(async {
@@ -1491,6 +1517,7 @@ impl Runner for ServiceRunner {
         self.ban_prev_ips.clear();
         self.ban_prev_nodes.clear();
         self.rt = Some(new_rt());
+        self.t0 = None;
     }
 
     fn step(&mut self, line: &str, out: &mut Vec<String>, stats: &mut Stats) {
@@ -1525,16 +1552,25 @@ impl Runner for ServiceRunner {
                 let Some(inst) = Inst::start(rt, x, seed, enr.clone(), mode, filter, maxn, maxin, enr_update, vote_min) else {
                     return noop(out);
                 };
+                let an = match inst.auto_nat {
+                    Some(d) => d.as_millis().to_string(),
+                    None => "-".to_string(),
+                };
+                if inst.auto_nat.map(|d| d < Duration::from_secs(60)).unwrap_or(false) {
+                    stats.bump("s.instances-with-short-listen-duration");
+                }
                 self.insts.insert(x, inst);
+                let _ = self.tok_ms();
                 stats.bump("s.instances");
                 out.push(format!(
-                    "!OP snew {} {} {} {} {} {}",
+                    "!OP snew {} {} {} {} {} {} an={}",
                     x,
                     rec_abs(&enr, filter),
                     mode_tok,
                     maxn,
                     maxin.min(16),
-                    enr_update as u8
+                    enr_update as u8,
+                    an
                 ));
                 out.push("ok".into());
             }
@@ -1565,6 +1601,47 @@ impl Runner for ServiceRunner {
                 }
                 out.push(format!("!OP sway {} {} {}", x, hex::encode(id), sock_num(&a)));
                 self.finish(x, "sway", None, so, None, out, stats);
+            }
+            // time of the (paused) tokio clock passes: the connectivity timers may run out
+            ["sidle", _, ms] => {
+                let ms: u64 = ms.parse().unwrap_or(0).min(600_000);
+                let (f, before) = (self.insts[&x].filter, self.insts[&x].discv5.local_enr());
+                if let Some(rt) = self.rt.as_ref() {
+                    rt.block_on(async { tokio::time::sleep(Duration::from_millis(ms)).await });
+                }
+                let so = self.observe(x, false, false);
+                let tok = self.tok_ms();
+                let after = self.insts[&x].discv5.local_enr();
+                let mut sfx = String::new();
+                if after != before {
+                    stats.bump("s.c17.idle-changed-local-record");
+                    sfx.push_str(&format!(" local={}", rec_abs(&after, f)));
+                    let inst = self.insts.get_mut(&x).unwrap();
+                    if before.udp4_socket().is_some() && after.udp4_socket().is_none() {
+                        inst.revoked4 = true;
+                        stats.bump("s.c17.socket-revoked");
+                    }
+                    if before.udp6_socket().is_some() && after.udp6_socket().is_none() {
+                        inst.revoked6 = true;
+                        stats.bump("s.c17.socket-revoked");
+                    }
+                    // C17: a change of the record is never a new or another socket unless a PONG caused it
+                    if (after.udp4_socket().is_some() && after.udp4_socket() != before.udp4_socket())
+                        || (after.udp6_socket().is_some() && after.udp6_socket() != before.udp6_socket())
+                    {
+                        out.push("!MON C17 socket-changed-without-clear-majority idle".into());
+                    }
+                    if !after.verify() {
+                        out.push("!MON C17 local-record-signature-invalid".into());
+                    }
+                    if after.seq() <= before.seq() {
+                        out.push("!MON C17 seq-not-increased".into());
+                    }
+                } else {
+                    stats.bump("s.c17.idle-left-local-record");
+                }
+                out.push(format!("!OP sidle {} t={}{}", x, tok, sfx));
+                self.finish(x, "sidle", None, so, None, out, stats);
             }
             // real time passes
             ["ssleep", _, ms] => {
@@ -1840,6 +1917,7 @@ impl Runner for ServiceRunner {
                             let conn_out = inst.prev.values().any(|b| b.nodes.iter().any(|n| n.id == vid && n.conn && !n.incoming));
                             (processed, conn_out, inst.require_more(a.is_ipv6()))
                         };
+                        let tok = self.tok_ms();
                         let _ = self.insts[&x].hout.try_send(HandlerOut::Response(from.clone(), Box::new(resp)));
                         let so = self.observe(x, false, false);
                         let inst = self.insts.get_mut(&x).unwrap();
@@ -1847,7 +1925,12 @@ impl Runner for ServiceRunner {
                             inst.reqs[k - 1].outstanding = false;
                             stats.bump("s.pong-processed");
                         }
-                        let eligible = processed && inst.enr_update && (conn_out || rm);
+                        // (votes of a family whose connectivity test failed are not counted)
+                        let revoked = if a.is_ipv6() { inst.revoked6 } else { inst.revoked4 };
+                        if processed && inst.enr_update && (conn_out || rm) && revoked {
+                            stats.bump("s.c17.votes-for-a-revoked-family");
+                        }
+                        let eligible = processed && inst.enr_update && (conn_out || rm) && !revoked;
                         if eligible {
                             stats.bump("s.c17.votes-counted");
                             if a.is_ipv6() {
@@ -1904,7 +1987,7 @@ impl Runner for ServiceRunner {
                         } else if !so.socket_updated.is_empty() {
                             out.push("!MON C17 socket-updated-event-without-record-change".into());
                         }
-                        out.push(format!("!OP {} pong {} {}{}", head, seq, sock_num(&a), vote));
+                        out.push(format!("!OP {} pong {} {}{} t={}", head, seq, sock_num(&a), vote, tok));
                         self.finish(x, "sresp", None, so, None, out, stats);
                     }
                     ("talk", [payload]) => {
@@ -2616,7 +2699,73 @@ fn gen_c14(rng: &mut Rng, ops: &mut Vec<String>, stats: &mut Stats) {
     }
 }
 
+/// C17, connectivity state: a node that waits a short while for incoming sessions after its socket
+/// was voted in.  Votes move the socket; 0..3 incoming sessions of either family follow; the node
+/// then idles for less or for more than the listen duration; further votes arrive afterwards.
+fn gen_c17_autonat(rng: &mut Rng, ops: &mut Vec<String>, stats: &mut Stats) {
+    stats.bump("gen.c17.connectivity-timer");
+    let mode = *rng.pick(&["ip4", "ip4", "dual"]);
+    let lshape = *rng.pick(&["n", "4", "n"]);
+    let vmin = *rng.pick(&[2u64, 2, 3]);
+    // (identities k…997 are the ones with a 5 s listen duration)
+    let a = 997 + 1000 * rng.range(0, 30);
+    ops.push(format!("snew A k{} {} {} 0 {} all 16 16 1 {}", a, rng.range(1, 300), lshape, mode, vmin));
+    let lead4 = *rng.pick(&["203.0.113.5/30303", "198.51.100.7/9000"]);
+    let lead6 = "20010db8000000000000000000000001/30303";
+    let mut next = 500 + rng.range(0, 40) * 10;
+    let mut vote = |ops: &mut Vec<String>, n: u64, v6: bool, next: &mut u64| {
+        for _ in 0..n {
+            ops.push(format!("sest A k{}:1:{}:0 = o", *next, if v6 { "6" } else { "4" }));
+            ops.push(format!("sresp A #p ok pong +0 {}", if v6 { lead6 } else { lead4 }));
+            *next += 1;
+        }
+    };
+    let rounds = rng.range(1, 2);
+    for round in 0..rounds {
+        // votes that move the IPv4 socket (and, on a dual-stack node, sometimes the IPv6 one a little later)
+        vote(ops, vmin + rng.below(2), false, &mut next);
+        if mode == "dual" && rng.chance(1, 2) {
+            if rng.chance(1, 2) {
+                ops.push(format!("sidle A {}", rng.range(1, 4000)));
+            }
+            vote(ops, vmin + rng.below(2), true, &mut next);
+        }
+        ops.push("slocal A".into());
+        // incoming sessions: none, one (not enough), two or three, of the voted family or the other one
+        for _ in 0..rng.below(4) {
+            let sh = if mode == "dual" && rng.chance(1, 3) { "6" } else { "4" };
+            ops.push(format!("sest A k{}:1:{}:0 = i", 700 + rng.below(200), sh));
+            if rng.chance(1, 3) {
+                ops.push("sfail A #p".into());
+            }
+        }
+        // idle: clearly less, just less, just more, clearly more than the 5 s
+        let ms = *rng.pick(&[300u64, 2500, 4800, 5100, 5100, 9000, 9000]);
+        ops.push(format!("sidle A {}", ms));
+        ops.push("slocal A".into());
+        if rng.chance(1, 2) {
+            ops.push(format!("sidle A {}", *rng.pick(&[200u64, 5000, 9000])));
+            ops.push("slocal A".into());
+        }
+        // afterwards: the same address is voted for again by new peers (blocked if the test failed)
+        vote(ops, vmin + 1, false, &mut next);
+        if mode == "dual" {
+            vote(ops, vmin, true, &mut next);
+        }
+        ops.push("slocal A".into());
+        if round + 1 < rounds {
+            ops.push(format!("sidle A {}", *rng.pick(&[1000u64, 6000])));
+        }
+    }
+    ops.push("sidle A 6000".into());
+    ops.push("slocal A".into());
+    ops.push("stable A".into());
+}
+
 fn gen_c17(rng: &mut Rng, ops: &mut Vec<String>, stats: &mut Stats) {
+    if rng.chance(1, 5) {
+        return gen_c17_autonat(rng, ops, stats);
+    }
     let mode = *rng.pick(&["ip4", "ip4", "dual", "dual", "ip6"]);
     let lshape = match mode {
         "ip4" => *rng.pick(&["4", "n"]),
